@@ -312,7 +312,8 @@ func (w *world) realize(id int, ls []*layer, hold bool) {
 			uris[i] = path // a request URI, but there is no host to ask
 		}
 		delivered, term := l.script.Delivered()
-		if term == registry.TermStall {
+		if term == registry.TermStall && w.held[keyOf(l)] == nil {
+			// (a layer served from the arena makes no request and cannot stall)
 			stall = true
 		}
 		// parameters of the model, from the libraries directly
@@ -587,7 +588,7 @@ func Run(cfg hx.Config) error {
 	sweeps(r, g, next, tr)
 
 	// 3. random single fetches
-	nrand := cfg.N(2500, 40000)
+	nrand := cfg.N(2500, 25000)
 	for i := 0; i < nrand && !r.Stop(); i++ {
 		w := next(tr, false)
 		w.realize(0, []*layer{g.randomLayer()}, false)
